@@ -53,19 +53,20 @@ func init() {
 // ---- scenarios ------------------------------------------------------------------
 
 type scenario struct {
-	Name     string
-	EUT      string // client | server  (which side is zcrypto under test)
-	GoPeer   bool   // recording peer is Go's crypto/tls (otherwise zcrypto)
-	Cell     cell
-	Auth     bool // server requests a client certificate
-	Resume   bool // transcript of a resumed session
-	HRR      bool // TLS 1.3 HelloRetryRequest
-	Reneg    bool // client under test allows renegotiation
-	Staple   bool // server certificate carries OCSP staple and SCTs
-	NoTicket bool
-	EMS      bool   // client under test offers the extended master secret
-	Insecure bool   // client under test does not verify the server (scanner configuration)
-	Synth    string // "dhe": the server flight is built by hand (no zcrypto or Go server negotiates DHE)
+	Name      string
+	EUT       string // client | server  (which side is zcrypto under test)
+	GoPeer    bool   // recording peer is Go's crypto/tls (otherwise zcrypto)
+	Cell      cell
+	Auth      bool // server requests a client certificate
+	Resume    bool // transcript of a resumed session
+	HRR       bool // TLS 1.3 HelloRetryRequest
+	Reneg     bool // client under test allows renegotiation
+	Staple    bool // server certificate carries OCSP staple and SCTs
+	NoTicket  bool
+	EMS       bool   // client under test offers the extended master secret
+	Insecure  bool   // client under test does not verify the server (scanner configuration)
+	Synth     string // "dhe": the server flight is built by hand (no zcrypto or Go server negotiates DHE)
+	SynthHash int    // TLS 1.2 synthetic flights: HashAlgorithm of the ServerKeyExchange signature (0 = sha256)
 }
 
 type frozenCache struct {
@@ -209,6 +210,12 @@ func scenarios() []scenario {
 				out = append(out, sc)
 			}
 		}
+	}
+	// the other hash / signature pairs a TLS 1.2 client accepts for the ServerKeyExchange signature
+	for _, h := range []int{2, 5, 6} {
+		sc := scenario{EUT: "client", Synth: "dhe", SynthHash: h, Cell: cell{Version: vTLS12, Suite: ztls.TLS_DHE_RSA_WITH_AES_128_CBC_SHA, Kind: tlspair.RSA2048, Ref: refParams{kind: kindCBC, macLen: 20, keyLen: 16, ivLen: 16}}}
+		sc.Name = fmt.Sprintf("0303/0033/client/peer=synthetic-dhe+hash%d", h)
+		out = append(out, sc)
 	}
 	return out
 }
@@ -832,6 +839,36 @@ func runC32(c *core.Ctx) {
 					last = o.calls[0].Name + " -> " + o.calls[0].Err
 				}
 				c.Sample(map[string]any{"case": id, "mutation": m, "reached": o.reached, "first_call": last, "bytes_consumed": o.consumed})
+			}
+		}
+
+		// systematic sweep: every handshake message of the script cut at (quick: every structurally distinct, thorough: every)
+		// byte offset, and extended by 1-2 bytes, always well-framed (handshake header and record re-computed; a second
+		// variant also shrinks the enclosing vectors)
+		for _, tc := range truncationCases(t.items, t.tls13, tls12sig, c.Thorough()) {
+			if blockedSeen >= 3 {
+				return
+			}
+			id := fmt.Sprintf("%s#cut/%d/%d/%d/%s", sc.Name, tc.item, tc.msg, tc.cut, tc.variant)
+			if c.OnlyCase != "" && c.OnlyCase != id {
+				continue
+			}
+			items := make([]item, len(t.items))
+			copy(items, t.items)
+			items[tc.item].Frag = tc.frag
+			chunks := applyEdits(serialise(items, t.prot), nil)
+			input := map[string]any{"scenario": sc.Name, "plan": "well-framed truncation", "record": tc.item, "message_type": tc.typ, "message_index": tc.msg, "cut_at": tc.cut, "variant": tc.variant, "seed": c.Seed}
+			c.Begin(id, input)
+			o := t.replay(chunks, tc.item, tc.cut%2*3, false, false)
+			c.End(id)
+			c.Eval(1)
+			c.Count("plan:framed-truncation-sweep", 1)
+			judge(c, id, input, chunks, o)
+			if o.reached {
+				c.Nontrivial(id)
+				c.Count("fault_reached", 1)
+			} else {
+				c.Count("fault_not_reached", 1)
 			}
 		}
 	}
